@@ -36,10 +36,12 @@ template <int N> struct ExactCoef
     ~ExactCoef() { delete[] c; }
 };
 #else
+static thread_local int g_place = 0;
 template <int N> struct ExactCoef
 {
-    E c[N];
-    explicit ExactCoef(const u64 *p) { for (int i = 0; i < N; i++) c[i].fe = p[i]; }
+    alignas(64) E buf[N + 8];
+    E *c;
+    explicit ExactCoef(const u64 *p) { c = buf + (g_place & 7); for (int i = 0; i < N; i++) c[i].fe = p[i]; }
 };
 #endif
 
@@ -151,5 +153,10 @@ static const unsigned width_ = 32;
 static const int ism_ = 0;
 #endif
 extern const MTab mtab;
-const MTab mtab = {entries, (int)(sizeof(entries) / sizeof(entries[0])), width_, ism_};
+#ifdef EXACT_HEAP
+static void set_place_(int) {}
+#else
+static void set_place_(int p) { g_place = p; }
+#endif
+const MTab mtab = {entries, (int)(sizeof(entries) / sizeof(entries[0])), width_, ism_, set_place_};
 } // namespace KNS
